@@ -13,6 +13,7 @@ import (
 	"github.com/couchbase/sync_gateway/auth"
 	"github.com/couchbase/sync_gateway/base"
 	"github.com/couchbase/sync_gateway/verifshim/vreport"
+	"github.com/couchbase/sync_gateway/verifshim/vstore"
 )
 
 // C13 — a pulling client's copy always matches the user's current access.
@@ -52,9 +53,13 @@ type c13Run struct {
 	lostBy        map[string]string
 	rewrittenLost map[string]bool
 	regrantSince  map[string]bool // a grant event happened after the document left the view
+	innerViol     map[string]string
+	innerVisible  map[string]string
 }
 
 type c13Env struct {
+	vb   *vstore.Bucket // hooks stay off except inside the composite role-deletion event
+	tb   *base.TestBucket
 	db   *Database
 	ctx  context.Context
 	coll *DatabaseCollectionWithUser
@@ -147,6 +152,47 @@ func (r *c13Run) world(sym string) error {
 		}
 		r.rLive = false
 		return e.db.DeleteRole(e.ctx, r.n("r"), false)
+	case "r:del*":
+		// the role is deleted while, between the deletion's read of the role and its write, an administrator gives the
+		// role channel C and the client pulls (so it holds the documents of C); the deletion's write then loses its CAS
+		// race and starts over. Afterwards the user has lost everything the role gave, incl. C.
+		if !r.rLive {
+			return nil
+		}
+		H := e.vb.H
+		roleKey := e.db.MetadataKeys.RoleKey(r.n("r"))
+		fired := false
+		H.Select = func(op, key string) bool { return key == roleKey }
+		H.Plan = func(seq int, op, key string, write bool) vstore.Injection {
+			if fired || !write {
+				return vstore.None
+			}
+			fired = true
+			H.Enabled = false
+			chans := base.Set{}
+			for c := range r.rAdm {
+				chans.Add(r.n(c))
+			}
+			chans.Add(r.n("C"))
+			if _, _, err := e.db.UpdatePrincipal(e.ctx, &auth.PrincipalConfig{Name: base.Ptr(r.n("r")), ExplicitChannels: chans}, false, true); err == nil {
+				r.rAdm["C"] = true
+				r.innerVisible = r.visible()
+				c13WaitFeed(e)
+				for fp, d := range r.pull(0) {
+					if r.innerViol == nil {
+						r.innerViol = map[string]string{}
+					}
+					r.innerViol[fp] = d
+				}
+			}
+			H.Enabled = true
+			return vstore.None // the store itself now reports the CAS mismatch
+		}
+		H.Enabled = true
+		err := e.db.DeleteRole(e.ctx, r.n("r"), false)
+		H.Enabled, H.Plan, H.Select = false, nil, nil
+		r.rLive = false
+		return err
 	case "g:u:A":
 		r.grantTo = "u"
 		return r.put("g", []string{"G"}, Body{"gu": r.n("u"), "gc": r.n("A")}, false)
@@ -304,6 +350,10 @@ func (r *c13Run) pull(limit int) map[string]string {
 				viol["C13/client-keeps-document-deleted-or-moved-before-a-channel-was-granted-again"] = fmt.Sprintf("after pull %d the client still holds %s, which was %s and has had no removal, deletion or revocation notice since; a channel was granted (again) between that and the pull; user can see %v; history %v", r.pullN, id, lb, want, r.hist)
 				continue
 			}
+			if r.lostBy[id] == "r:del*" {
+				viol["C13/client-keeps-document-after-role-deletion/deletion-raced-by-a-grant-to-the-role"] = fmt.Sprintf("after pull %d the client still holds %s: the role was deleted while it was being given a further channel and the client pulled in between; the deletion keeps the sequence it reserved before the grant, so for a client whose position is already past it the loss of the role's channels is never reported; user can see %v; history %v", r.pullN, id, want, r.hist)
+				continue
+			}
 			if r.lostBy[id] == "r:del" {
 				kind := "paged-revocation"
 				if r.rewrittenLost[id] {
@@ -421,6 +471,10 @@ func (e *c13Env) run(t testing.TB, r *vreport.Report, hist []string) {
 				run.regrantSince[id] = true
 			}
 		}
+		for fp, d := range run.innerViol {
+			r.Violate(fp, d, c13Case{Hist: hist[:i+1]})
+		}
+		run.innerViol = nil
 		visAfter := run.visible()
 		for id := range visBefore {
 			if _, still := visAfter[id]; !still {
@@ -429,6 +483,14 @@ func (e *c13Env) run(t testing.TB, r *vreport.Report, hist []string) {
 				run.regrantSince[id] = false
 			}
 		}
+		for id := range run.innerVisible {
+			if _, still := visAfter[id]; !still {
+				run.lostBy[id] = sym
+				run.rewrittenLost[id] = false
+				run.regrantSince[id] = false
+			}
+		}
+		run.innerVisible = nil
 		for id := range visAfter {
 			delete(run.lostBy, id)
 			delete(run.rewrittenLost, id)
@@ -463,7 +525,14 @@ func TestVerifC13(t *testing.T) {
 		}
 		co := DefaultCacheOptions()
 		co.ChannelQueryLimit = 2 // channel queries (back-fill, revocation) page by 2
-		db, ctx := SetupTestDBWithOptions(t, DatabaseContextOptions{CacheOptions: &co, Scopes: GetScopesOptionsDefaultCollectionOnly(t), BcryptCost: 4, ClientPartitionWindow: base.DefaultClientPartitionWindow, QueryPaginationLimit: 2})
+		if e.tb != nil {
+			e.tb.Close(e.ctx)
+		}
+		tb := base.GetTestBucket(t)
+		vb := vstore.Wrap(tb.Bucket)
+		tb.Bucket = vb
+		e.tb, e.vb = tb, vb
+		db, ctx := SetupTestDBForBucketWithOptions(t, tb, DatabaseContextOptions{CacheOptions: &co, Scopes: GetScopesOptionsDefaultCollectionOnly(t), BcryptCost: 4, ClientPartitionWindow: base.DefaultClientPartitionWindow, QueryPaginationLimit: 2})
 		coll, ctx := GetSingleDatabaseCollectionWithUser(ctx, t, db)
 		if _, err := coll.UpdateSyncFun(ctx, c13SyncFn); err != nil {
 			t.Fatalf("sync fn: %v", err)
@@ -471,7 +540,12 @@ func TestVerifC13(t *testing.T) {
 		e.db, e.ctx, e.coll = db, ctx, coll
 	}
 	fresh()
-	defer func() { e.db.Close(e.ctx) }()
+	defer func() {
+		e.db.Close(e.ctx)
+		if e.tb != nil {
+			e.tb.Close(e.ctx)
+		}
+	}()
 	var rc c13Case
 	if r.Replaying(&rc) {
 		e.debug = true
@@ -567,6 +641,26 @@ func TestVerifC13(t *testing.T) {
 		}
 	}
 	rec2(nil)
+	// the role is deleted while it is being given a further channel (and the client pulls in between), after the
+	// populated world plus one document in that channel
+	for _, tail := range [][]string{{"r:del*"}, {"r:del*", "d8:C"}, {"d2:AB", "r:del*"}, {"r:del*", "u:none"}} {
+		for _, limit := range []int{0, 2, 5} {
+			idx++
+			if !r.Mine(idx) || r.Expired() {
+				continue
+			}
+			hist := append(append([]string{}, base13...), "d8:C", "pull:0")
+			for _, s := range tail {
+				hist = append(hist, s, fmt.Sprintf("pull:%d", limit))
+			}
+			if e.n%100 == 99 {
+				fresh()
+			}
+			e.run(t, r, hist)
+			r.Add("evaluations", 1)
+			r.Add("distinct_nontrivial", 1)
+		}
+	}
 	if r.Expired() {
 		r.Cap("time budget reached before all histories were explored")
 	}
